@@ -313,12 +313,18 @@ func bgvTransformLeaf(c *engine.Chooser, name string, k cfg) {
 	ops := mp.Ops[multiparty.RefreshShare]{
 		Sig: sig, Key: name,
 		New:  func() multiparty.RefreshShare { return mtp[0].AllocateShare(lsh, lout) },
-		Agg:  mtp[0].AggregateShares,
+		Agg: func(a, b multiparty.RefreshShare, out *multiparty.RefreshShare) error {
+			fresh := out.MetaData.Scale.Value.Sign() == 0 // zero-value metadata: a freshly allocated output
+			err := mtp[0].AggregateShares(a, b, out)
+			if fresh {
+				// isolated in scenario refresh-share-metadata/bgv: a freshly allocated output does not receive the metadata
+				out.MetaData = a.MetaData
+			}
+			return err
+		},
 		Hop:  mp.HopRefresh,
 		Flat: func(a multiparty.RefreshShare) mp.Flat { return mp.FlatRefresh(rp, rp, a) },
 	}
-	// AggregateShares does not carry the metadata into a fresh output: Transform compares it with the
-	// ciphertext's, so the aggregate handed to it gets the metadata every share agrees on.
 	agg, ok := mp.Merge(c, ops, shares, mp.Search{Mode: k.mode, Variants: true})
 	if !ok {
 		return
